@@ -179,11 +179,30 @@ class Search:
         L = [m.rating(mu, sg, name=f"{prefix}{i}") for i, (mu, sg) in enumerate(values)]
         return m, L
 
+    WARM = [MATCHUPS[3], MATCHUPS[4], MATCHUPS[0]]
+
     def build(self, hist):
+        """The state reached by `hist` from the WARM initial state: every predictor has already been asked about three
+        matchups with the live rating objects ("start from non-initial states too": whatever a model or a module keeps
+        from earlier predictions is present, and stale, when the history's rate calls change the values)."""
         m, L = self.fresh()
+        for mt in self.WARM:
+            t = [[L[i] for i in T] for T in mt]
+            m.predict_win(t)
+            m.predict_draw(t)
+            m.predict_rank(t)
         for oi in hist:
             self.apply(m, L, self.ops[oi])
         return m, L
+
+    def _predictions(self, m, L):
+        out = []
+        for mt in self.WARM[:2]:
+            t = [[L[i] for i in T] for T in mt]
+            out.append([fb(x) for x in m.predict_win(t)])
+            out.append(fb(m.predict_draw(t)))
+            out.append([[fb(a), fb(b)] for a, b in m.predict_rank(t)])
+        return out
 
     def state(self, m, L):
         return (snap_model(m), tuple(snap_rating(p) for p in L), snap_globals())
@@ -249,6 +268,16 @@ class Search:
                     if snap_obj(obj) != snap0:
                         checks.append(("I4", f"malformed call {name} modified {label} inside its argument"))
             return ["bad", name, outcome[0], outcome[1] if outcome[0] == "rejected" else ""]
+        if kind == "mutate":
+            # values changed by the application, not by rate(): mu and sigma are plain public attributes
+            L[0].mu = L[0].mu + 0.5 * self.cfg.beta
+            L[1].sigma = L[1].sigma * 2.0
+            return ["mutate"]
+        if kind in ("restore", "deepcopy") and checks is not None:
+            try:
+                pred_before = self._predictions(m, L)
+            except Exception as e:
+                pred_before = ["raised", type(e).__name__]
         if kind == "restore":
             how = op[1]
             old = list(L)
@@ -264,6 +293,7 @@ class Search:
                 for p, q in zip(old, L):
                     if snap_rating(p) != snap_rating(q):
                         checks.append(("I5", f"restore via {how} changed a rating: {snap_rating(p)} -> {snap_rating(q)}"))
+                self._check_pred_after(m, L, pred_before, f"restore via {how}", checks)
             return ["restore", how]
         if kind == "deepcopy":
             old = list(L)
@@ -276,8 +306,19 @@ class Search:
                     if q.id != p.id or snap_rating(p) != snap_rating(q):
                         checks.append(("I5", f"deepcopy changed a rating: id {p.id}->{q.id} {snap_rating(p)} -> {snap_rating(q)}"))
             L[:] = flat
+            if checks is not None:
+                self._check_pred_after(m, L, pred_before, "deepcopy", checks)
             return ["deepcopy"]
         raise core.HarnessError(f"unknown op {op!r}")
+
+    def _check_pred_after(self, m, L, pred_before, what, checks):
+        try:
+            pred_after = self._predictions(m, L)
+        except Exception as e:
+            pred_after = ["raised", type(e).__name__]
+        if pred_after != pred_before:
+            checks.append(("I5", f"predictions with the players after {what} differ from those with the original objects "
+                                 f"(same values): {pred_after} vs {pred_before}"))
 
     # ------------------------------------------------------------------ one transition with all invariants
     def step(self, hist, oi, init_model_snap):
@@ -441,7 +482,7 @@ def ops_full(beta):
             ops.append((p, mt))
     for name in BAD:
         ops.append(("bad", name))
-    ops += [("restore", "create_rating"), ("restore", "rating"), ("deepcopy",)]
+    ops += [("restore", "create_rating"), ("restore", "rating"), ("deepcopy",), ("mutate",)]
     return ops
 
 
@@ -453,7 +494,7 @@ def ops_reduced(beta):
             ops.append((p, mt))
     for name in BAD:
         ops.append(("bad", name))
-    ops += [("restore", "create_rating"), ("restore", "rating"), ("deepcopy",)]
+    ops += [("restore", "create_rating"), ("restore", "rating"), ("deepcopy",), ("mutate",)]
     return ops
 
 
@@ -473,7 +514,7 @@ def ops_seed(beta):
     for mt in MATCHUPS:
         for p in ("predict_win", "predict_draw", "predict_rank"):
             ops.append((p, mt))
-    ops += [("restore", "create_rating"), ("deepcopy",)]
+    ops += [("restore", "create_rating"), ("deepcopy",), ("mutate",)]
     return ops
 
 
